@@ -75,8 +75,10 @@ CHECKS = {
     "C18": dict(
         title="NNS accepts exactly well-formed names and record data",
         quick=dict(groups=[E("exhaustive", "^TestC18Exhaustive$", 4, env=dict(VERIF_C18_MAXLEN=4)), E("ipv4-product", "^TestC18IPv4Product$", 4),
-                           G("structured", "^TestC18Structured$", 250, 8)]),
+                           E("ipv6-exhaustive", "^TestC18IPv6Exhaustive$", 4, env=dict(VERIF_C18_V6LEN=6)),
+                           G("structured", "^TestC18Structured$", 250, 4)]),
         thorough=dict(groups=[E("exhaustive", "^TestC18Exhaustive$", 16, env=dict(VERIF_C18_MAXLEN=6)), E("ipv4-product", "^TestC18IPv4Product$", 16),
+                              E("ipv6-exhaustive", "^TestC18IPv6Exhaustive$", 16, env=dict(VERIF_C18_V6LEN=8)),
                               G("structured", "^TestC18Structured$", 5000, 16)]),
     ),
     "C10": dict(
